@@ -28,6 +28,7 @@ func init() {
 			{ID: "R6", Desc: "S and N texts are carried verbatim in both directions of both clients (T-FLOW)", Run: c10R6},
 			{ID: "R7", Desc: "the type-carrying field is provably non-nil wherever a typed attribute is written (T-GUARD non-nil)", Run: c10R7},
 			{ID: "R8", Desc: "a written item is not replaced by a write to another key: lossless key derivation (= C01.R8)", Run: aliasRule("R8", c01R8, nil)},
+			{ID: "R10", Desc: "attribute value -> object: under the presence test of field F the object built is the one whose Type()/ToDynamoDB is F (with R4: a value keeps its type through a read/write round trip) (T-GUARD)", Run: c10R10},
 			{ID: "R9", Desc: "what is stored and what is handed out are copies: reference components of every conversion are owned by the result (= C14.R1)", Run: aliasRule("R9", c14R1, nil)},
 		},
 	})
@@ -197,7 +198,13 @@ func c10R2(e *Engine) {
 		}
 	}
 	for _, fn := range e.funcs("lang") {
-		if fn.Parent() == nil && len(fn.Params) == 1 && strings.HasSuffix(typeName(fn.Params[0].Type()), "types.Item") && fn.Signature.Results().Len() == 2 {
+		if len(fn.Params) != 1 || !strings.HasSuffix(typeName(fn.Params[0].Type()), "types.Item") {
+			continue
+		}
+		res := fn.Signature.Results()
+		// a converter (Object, error) – or a predicate over an attribute value (the `matches` half of a table of
+		// (predicate, converter) pairs, a named helper like isNumberAttribute)
+		if (fn.Parent() == nil && res.Len() == 2) || (res.Len() == 1 && types.Identical(res.At(0).Type().Underlying(), types.Typ[types.Bool])) {
 			fns = append(fns, fn)
 		}
 	}
@@ -644,4 +651,202 @@ func c10R7(e *Engine) {
 	if n < 10 {
 		e.fail("R7", "count:R7", "-", "only %d type-tag sites found (object kinds + v2 member cases)", n)
 	}
+}
+
+// c10R10: the item -> object direction of the round trip. Whatever form the dispatch takes – a chain of cases, helper
+// functions, a table of (predicate, constructor) pairs – the object produced when field F of the attribute value is
+// present carries the tag F (R4 shows that an object with tag F is written back as field F).
+func c10R10(e *Engine) {
+	g := e.newGuard()
+	isItemConv := func(fn *ssa.Function) bool {
+		return len(fn.Params) == 1 && strings.HasSuffix(typeName(fn.Params[0].Type()), "types.Item") && fn.Signature.Results().Len() == 2 && isObjectIface(fn.Signature.Results().At(0).Type())
+	}
+	isItemPred := func(fn *ssa.Function) bool {
+		res := fn.Signature.Results()
+		return len(fn.Params) == 1 && strings.HasSuffix(typeName(fn.Params[0].Type()), "types.Item") && res.Len() == 1 && types.Identical(res.At(0).Type().Underlying(), types.Typ[types.Bool])
+	}
+	// tags of the object a value may be (nil results that accompany an error are not objects)
+	var tagsOf func(v ssa.Value, b *ssa.BasicBlock, depth int, out map[string]bool)
+	tagsOfFn := func(f *ssa.Function, depth int, out map[string]bool) {
+		for _, r := range returnsOf(f) {
+			rv := retVals(r)
+			if isNilConst(rv[0]) {
+				continue
+			}
+			tagsOf(rv[0], r.Block(), depth+1, out)
+		}
+	}
+	tagsOf = func(v ssa.Value, b *ssa.BasicBlock, depth int, out map[string]bool) {
+		if depth > 5 {
+			out["?"] = true
+			return
+		}
+		if t := g.dynTag(v, b, 0); t != "" {
+			out[t] = true
+			return
+		}
+		switch x := strip(v).(type) {
+		case *ssa.Phi:
+			for i, ed := range x.Edges {
+				tagsOf(ed, x.Block().Preds[i], depth+1, out)
+			}
+		case *ssa.Extract:
+			if c, ok := x.Tuple.(*ssa.Call); ok && x.Index == 0 {
+				tagsOf(c, b, depth, out)
+				return
+			}
+			out["?"] = true
+		case *ssa.Call:
+			fs := []*ssa.Function{x.Call.StaticCallee()}
+			if fs[0] == nil {
+				fs = e.closuresOf(x.Call.Value, nil, 0)
+			}
+			if len(fs) == 0 {
+				out["?"] = true
+			}
+			for _, f := range fs {
+				if f == nil || f.Blocks == nil {
+					out["?"] = true
+					continue
+				}
+				tagsOfFn(f, depth, out)
+			}
+		default:
+			out["?"] = true
+		}
+	}
+	verdict := func(construct, pos, field string, tags map[string]bool, where string) {
+		ts := sortedKeys(tags)
+		switch {
+		case len(ts) == 1 && ts[0] == field:
+			e.pass("R10", construct, pos, "present field %s ↦ object with tag %s (%s)", field, field, where)
+		case tags["?"] || len(ts) == 0:
+			e.undecided("R10", construct, pos, "the type of the object built when %s is present could not be determined (%s; candidates %v)", field, where, ts)
+		default:
+			e.fail("R10", construct, pos, "when field %s of the attribute value is present the object built has tag %v (%s): the attribute changes type on its way into the expression engine – and is written back as that other type", field, ts, where)
+		}
+	}
+	n := 0
+	// form A: returns of a converter under a true presence test
+	for _, fn := range sortedFns(e, fnSet(e.funcs("lang"))) {
+		if !isItemConv(fn) {
+			continue
+		}
+		tests := map[ssa.Value]string{}
+		for _, pt := range e.presenceTests(fn) {
+			if pt.kind == "nil" {
+				if b, ok := pt.in.(*ssa.BinOp); ok && b.Op == token.NEQ {
+					tests[b] = pt.field
+				}
+			}
+		}
+		if len(tests) == 0 {
+			continue
+		}
+		perField := map[string]map[string]bool{}
+		pos := map[string]string{}
+		for _, r := range returnsOf(fn) {
+			rv := retVals(r)
+			if isNilConst(rv[0]) {
+				continue
+			}
+			var fields []string
+			for _, cd := range condsAt(r.Block()) {
+				cd = normCond(cd)
+				if f, ok := tests[cd.V]; ok && cd.Val {
+					fields = append(fields, f)
+				}
+			}
+			if len(fields) != 1 {
+				continue
+			}
+			f := fields[0]
+			if perField[f] == nil {
+				perField[f] = map[string]bool{}
+				pos[f] = e.ipos(r)
+			}
+			tagsOf(rv[0], r.Block(), 0, perField[f])
+		}
+		for _, f := range sortedKeys(perField) {
+			n++
+			verdict(e.fname(fn)+":present["+f+"]", pos[f], f, perField[f], "case of "+e.fname(fn))
+		}
+	}
+	// form B: rows of a table of (predicate, constructor) pairs
+	rows := map[ssa.Value][2][]*ssa.Function{}
+	var rowOrder []ssa.Value
+	scan := append([]*ssa.Function{}, e.funcs("lang")...)
+	if f := e.SSA["lang"].Func("init"); f != nil {
+		scan = append(scan, f)
+	}
+	rowPos := map[ssa.Value]string{}
+	for _, fn := range scan {
+		instrsDeep(fn, func(in ssa.Instruction) {
+			st, ok := in.(*ssa.Store)
+			if !ok {
+				return
+			}
+			fa, ok := st.Addr.(*ssa.FieldAddr)
+			if !ok {
+				return
+			}
+			if _, isSig := st.Val.Type().Underlying().(*types.Signature); !isSig {
+				return
+			}
+			fs := e.closuresOf(st.Val, nil, 0)
+			if len(fs) == 0 {
+				return
+			}
+			r := rows[fa.X]
+			switch {
+			case isItemPred(fs[0]):
+				r[0] = append(r[0], fs...)
+			case isItemConv(fs[0]):
+				r[1] = append(r[1], fs...)
+			default:
+				return
+			}
+			if _, seen := rowPos[fa.X]; !seen {
+				rowPos[fa.X] = e.ipos(in)
+				rowOrder = append(rowOrder, fa.X)
+			}
+			rows[fa.X] = r
+		})
+	}
+	for _, key := range rowOrder {
+		r := rows[key]
+		if len(r[0]) == 0 || len(r[1]) == 0 {
+			continue
+		}
+		fields := map[string]bool{}
+		for _, p := range r[0] {
+			for _, pt := range e.presenceTests(p) {
+				fields[pt.field] = true
+			}
+		}
+		fl := sortedKeys(fields)
+		if len(fl) != 1 {
+			e.undecided("R10", "table-row@"+rowPos[key], rowPos[key], "the predicate of this table row does not test the presence of exactly one field (%v)", fl)
+			continue
+		}
+		tags := map[string]bool{}
+		var names []string
+		for _, c := range r[1] {
+			tagsOfFn(c, 0, tags)
+			names = append(names, e.fname(c))
+		}
+		n++
+		verdict("table-row["+fl[0]+"]", rowPos[key], fl[0], tags, "row pairing the predicate with "+strings.Join(names, ","))
+	}
+	if n < 10 {
+		e.fail("R10", "count:R10", "-", "only %d of the 10 attribute kinds have a presence-guarded construction site", n)
+	}
+}
+
+func fnSet(fs []*ssa.Function) map[*ssa.Function]bool {
+	m := map[*ssa.Function]bool{}
+	for _, f := range fs {
+		m[f] = true
+	}
+	return m
 }
